@@ -102,6 +102,119 @@ theorem mul_right_cancel_det {F X Y : M3 K} (hJ : F.det ≠ 0) (h : X * F = Y * 
 theorem det_transpose (A : M3 K) : A.transpose.det = A.det := by
   obtain ⟨a00,a01,a02,a10,a11,a12,a20,a21,a22⟩ := A; simp only [M3.transpose, M3.det]; ring
 
+
+/-! ### symmetric matrices, transposes (used by the pull-back chain) -/
+theorem transpose_mul (A B : M3 K) : (A * B).transpose = B.transpose * A.transpose := by
+  obtain ⟨a00,a01,a02,a10,a11,a12,a20,a21,a22⟩ := A
+  obtain ⟨b00,b01,b02,b10,b11,b12,b20,b21,b22⟩ := B
+  m3_poly
+theorem transpose_one : (1 : M3 K).transpose = 1 := by m3_poly
+theorem m3_one_mul (A : M3 K) : 1 * A = A := by
+  obtain ⟨a00,a01,a02,a10,a11,a12,a20,a21,a22⟩ := A; m3_poly
+theorem m3_mul_one (A : M3 K) : A * 1 = A := by
+  obtain ⟨a00,a01,a02,a10,a11,a12,a20,a21,a22⟩ := A; m3_poly
+theorem ofMandel_symm (c : K) (l : List K) : (M3.ofMandel c l).transpose = M3.ofMandel c l := by
+  unfold M3.ofMandel; split <;> rfl
+theorem symLower_smul_ofMandel (k c : K) (l : List K) : symLower (k • M3.ofMandel c l) = k • M3.ofMandel c l := by
+  unfold M3.ofMandel; split <;> simp only [symLower, M3.sym, M3.smul_def, M3.smul]
+/-- a symmetric matrix is determined by its upper triangle -/
+theorem eq_of_upper {A B : M3 K} (hA : A.transpose = A) (hB : B.transpose = B) (h : upper A = upper B) : A = B := by
+  obtain ⟨a00,a01,a02,a10,a11,a12,a20,a21,a22⟩ := A
+  obtain ⟨b00,b01,b02,b10,b11,b12,b20,b21,b22⟩ := B
+  simp only [M3.transpose, M3.mk.injEq] at hA hB
+  simp only [upper, List.cons.injEq, and_true] at h
+  obtain ⟨h0,h1,h2,h3,h4,h5⟩ := h
+  obtain ⟨-,ha1,ha2,-,-,ha5,-,-,-⟩ := hA
+  obtain ⟨-,hb1,hb2,-,-,hb5,-,-,-⟩ := hB
+  simp only [M3.mk.injEq]
+  refine ⟨h0, h3, h4, ?_, h1, h5, ?_, ?_, h2⟩
+  · rw [ha1, hb1]; exact h3
+  · rw [ha2, hb2]; exact h4
+  · rw [ha5, hb5]; exact h5
+theorem conj_symm {G Y : M3 K} (hY : Y.transpose = Y) : (G * Y * G.transpose).transpose = G * Y * G.transpose := by
+  rw [transpose_mul, transpose_mul, hY, ← m3_mul_assoc]
+  obtain ⟨a00,a01,a02,a10,a11,a12,a20,a21,a22⟩ := G
+  simp only [M3.transpose]
+theorem symm_transpose (L : M3 K) : (symm L).transpose = symm L := by
+  obtain ⟨a00,a01,a02,a10,a11,a12,a20,a21,a22⟩ := L; m3_poly
+theorem dE_transpose (F L : M3 K) : (dE F L).transpose = dE F L := by
+  unfold dE
+  rw [transpose_mul, transpose_mul, symm_transpose, ← m3_mul_assoc]
+  obtain ⟨a00,a01,a02,a10,a11,a12,a20,a21,a22⟩ := F
+  simp only [M3.transpose]
+theorem symm_of_symmetric (h2 : (2:K) ≠ 0) {A : M3 K} (hA : A.transpose = A) : symm A = A := by
+  obtain ⟨a00,a01,a02,a10,a11,a12,a20,a21,a22⟩ := A
+  simp only [M3.transpose, M3.mk.injEq] at hA
+  obtain ⟨-,ha1,ha2,-,-,ha5,-,-,-⟩ := hA
+  subst ha1 ha2 ha5
+  c23_unfold
+  refine ⟨?_,?_,?_,?_,?_,?_,?_,?_,?_⟩ <;> field_simp <;> ring
+/-- `F G = 1` gives `G F = 1` for 3×3 matrices with `det F ≠ 0` -/
+theorem inv_comm {F G : M3 K} (hJ : F.det ≠ 0) (h : F * G = 1) : G * F = 1 := by
+  apply mul_left_cancel_det hJ
+  rw [← m3_mul_assoc, h, m3_one_mul, m3_mul_one]
+/-- pulling a symmetric rate back and forth: `Gᵀ (Fᵀ D F) G = D` when `F G = 1` -/
+theorem dE_inv (h2 : (2:K) ≠ 0) {F G : M3 K} (h : F * G = 1) (L : M3 K) : dE G (dE F L) = symm L := by
+  have hs : symm (dE F L) = dE F L := symm_of_symmetric h2 (dE_transpose F L)
+  have ht : G.transpose * F.transpose = 1 := by rw [← transpose_mul, h, transpose_one]
+  unfold dE at hs ⊢
+  rw [hs]
+  calc G.transpose * (F.transpose * symm L * F) * G
+      = (G.transpose * F.transpose) * symm L * (F * G) := by simp only [m3_mul_assoc]
+    _ = symm L := by rw [ht, h, m3_one_mul, m3_mul_one]
+theorem pull_back_alg {F G X Y : M3 K} (h : F * G = 1) (hX : X = G * Y * G.transpose) :
+    F * X * F.transpose = Y := by
+  have ht : G.transpose * F.transpose = 1 := by rw [← transpose_mul, h, transpose_one]
+  subst hX
+  calc F * (G * Y * G.transpose) * F.transpose
+      = (F * G) * Y * (G.transpose * F.transpose) := by simp only [m3_mul_assoc]
+    _ = Y := by rw [ht, h, m3_one_mul, m3_mul_one]
+
+
+/-! ### first-order content of the `lam*` of Spec.lean (product rules, exact in a formal parameter `ε`)
+
+Along `F(ε) = F + ε L F`, with a stress measure varying as `T(ε) = T + ε r`:
+the coefficient of `ε` is the variation used in Spec.lean, the remainders are written out. -/
+/-- second invariant of `L` (sum of the principal 2×2 minors) -/
+def inv2 (L : M3 K) : K :=
+  L.a00 * L.a11 - L.a01 * L.a10 + (L.a00 * L.a22 - L.a02 * L.a20) + (L.a11 * L.a22 - L.a12 * L.a21)
+/-- `det (F + ε L F) = det F (1 + ε tr L + ε² I₂(L) + ε³ det L)`: `δJ = J tr L` -/
+theorem det_first_order (F L : M3 K) (ε : K) :
+    (F + ε • (L * F)).det = F.det * (1 + ε * L.trace + ε * ε * inv2 L + ε * ε * ε * L.det) := by
+  obtain ⟨f00,f01,f02,f10,f11,f12,f20,f21,f22⟩ := F
+  obtain ⟨l00,l01,l02,l10,l11,l12,l20,l21,l22⟩ := L
+  simp only [inv2]; c23_unfold; ring
+/-- `τ = F S Fᵀ`: `δτ = F r Fᵀ + L τ + τ Lᵀ`, i.e. `ℓ = F r Fᵀ` (`lamS`) -/
+theorem pk2_first_order (F L S r : M3 K) (ε : K) :
+    (F + ε • (L * F)) * (S + ε • r) * (F + ε • (L * F)).transpose
+      = F * S * F.transpose
+        + ε • (F * r * F.transpose + L * (F * S * F.transpose) + (F * S * F.transpose) * L.transpose)
+        + (ε * ε) • (L * (F * S * F.transpose) * L.transpose + L * (F * r * F.transpose) + (F * r * F.transpose) * L.transpose)
+        + (ε * ε * ε) • (L * (F * r * F.transpose) * L.transpose) := by
+  obtain ⟨f00,f01,f02,f10,f11,f12,f20,f21,f22⟩ := F
+  obtain ⟨l00,l01,l02,l10,l11,l12,l20,l21,l22⟩ := L
+  obtain ⟨s00,s01,s02,s10,s11,s12,s20,s21,s22⟩ := S
+  obtain ⟨r00,r01,r02,r10,r11,r12,r20,r21,r22⟩ := r
+  m3_poly
+/-- `τ = P Fᵀ`: `δτ = r Fᵀ + τ Lᵀ`, i.e. `ℓ = r Fᵀ − L τ` (`lamP`) -/
+theorem pk1_first_order (F L P r : M3 K) (ε : K) :
+    (P + ε • r) * (F + ε • (L * F)).transpose
+      = P * F.transpose + ε • (r * F.transpose + (P * F.transpose) * L.transpose)
+        + (ε * ε) • ((r * F.transpose) * L.transpose) := by
+  obtain ⟨f00,f01,f02,f10,f11,f12,f20,f21,f22⟩ := F
+  obtain ⟨l00,l01,l02,l10,l11,l12,l20,l21,l22⟩ := L
+  obtain ⟨p00,p01,p02,p10,p11,p12,p20,p21,p22⟩ := P
+  obtain ⟨r00,r01,r02,r10,r11,r12,r20,r21,r22⟩ := r
+  m3_poly
+/-- Green–Lagrange strain `E = (FᵀF − 1)/2`: `δE = Fᵀ sym(L) F` (`dE`) -/
+theorem gl_first_order (h2 : (2:K) ≠ 0) (F L : M3 K) (ε : K) :
+    (1/2 : K) • ((F + ε • (L * F)).transpose * (F + ε • (L * F)) - 1)
+      = (1/2 : K) • (F.transpose * F - 1) + ε • dE F L + (ε * ε) • ((1/2 : K) • ((L * F).transpose * (L * F))) := by
+  obtain ⟨f00,f01,f02,f10,f11,f12,f20,f21,f22⟩ := F
+  obtain ⟨l00,l01,l02,l10,l11,l12,l20,l21,l22⟩ := L
+  c23_unfold
+  refine ⟨?_,?_,?_,?_,?_,?_,?_,?_,?_⟩ <;> field_simp <;> ring
+
 /-! ### linearity of the action in the stored second-order object -/
 theorem dot_add (r v w : List K) (h : v.length = w.length) :
     dot r (List.zipWith (· + ·) v w) = dot r v + dot r w := by
